@@ -174,15 +174,19 @@ def run(chk):
 
     # sensitivity probes (not counted in the evidence numbers)
     sens = {}
+    if items:
+        # the real collector already disagrees with the model: the probe counts would mix both disagreements and say nothing
+        chk.cov["sensitivity_probes"] = "skipped: the exploration itself reported violations"
     with ThreadPoolExecutor(max_workers=2) as ex:
-        pouts = list(ex.map(lambda pr: _explore(pr[1], 8, mutate=pr[0]), PROBES))
+        pouts = [] if items else list(ex.map(lambda pr: _explore(pr[1], 8, mutate=pr[0]), PROBES))
     for (mut, cfg, want), d in zip(PROBES, pouts):
         n = len(d["witnesses"])
         sens[mut] = {"family": f"{cfg[0]}/n{cfg[1]}/d{len(d['prefix']) + cfg[2]}", "transitions": d["transitions"], "violating_histories": d["raw_violations"], "witnesses": n,
                      "first": ";".join(d["witnesses"][0]["hist"]) + " -> " + d["witnesses"][0]["kind"] if n else None}
         if n < want or (mut == "eph_once" and n != want):
             raise core.MachineryError(f"sensitivity probe `{mut}`: a deliberately broken reference model produced {n} witnesses (expected {want}): the check has gone vacuous")
-    chk.cov["sensitivity_probes"] = sens
+    if not items:
+        chk.cov["sensitivity_probes"] = sens
 
     chk.cov["rule"] = (
         "E2: per family (sub-alphabet, see parts) ALL operation histories up to the stated depth over <=3 / <=4 node ids, host handles <=2 per node, "
